@@ -581,7 +581,7 @@ fn bad(tag: &str, detail: impl Into<String>) -> V {
 
 /// Failures whose class is a recorded finding are reported only when nothing else failed, so
 /// that they cannot hide a different violation in the same case.
-const LATE_TAGS: &[&str] = &["lazy-subsequence-iter", "lazy-data-retains-cg-after-resolve", "rewrite-lazy-duplicates-cg"];
+const LATE_TAGS: &[&str] = &["lazy-data-retains-cg-after-resolve", "rewrite-lazy-duplicates-cg"];
 
 fn select(fails: Vec<(String, String)>) -> V {
     if let Some(f) = fails.iter().find(|(t, _)| !LATE_TAGS.contains(&t.as_str())) {
@@ -595,13 +595,15 @@ fn select(fails: Vec<(String, String)>) -> V {
 }
 
 /// every lazy accessor of `lz` against the eager record `eg`; all failures, in order
-fn check_lazy(header: &sam::Header, lz: &bam::Record, eg: &RecordBuf, overflow: bool) -> Vec<(String, String)> {
+/// `placeholder_outside_quantifier`: only for hand-made `dec` bodies -- a kSmN placeholder whose CG
+/// array has <= 65535 operations, which no writer produces; there the CG field is ignored when the
+/// data views are compared (the recorded finding is about records with > 65535 operations).
+fn check_lazy(header: &sam::Header, lz: &bam::Record, eg: &RecordBuf, placeholder_outside_quantifier: bool) -> Vec<(String, String)> {
     let mut fails = Vec::new();
     for r in [
         check_lazy_core(lz, eg),
-        check_lazy_data(lz, eg, overflow),
-        check_lazy_data_cg(lz, eg),
-        check_lazy_convert(header, lz, eg, overflow),
+        check_lazy_data(lz, eg, placeholder_outside_quantifier),
+        check_lazy_convert(header, lz, eg),
     ] {
         if let Err(f) = r {
             fails.push(f);
@@ -759,17 +761,22 @@ fn lazy_data(lz: &bam::Record) -> Result<Vec<([u8; 2], Val)>, (String, String)> 
     Ok(ld)
 }
 
-/// data fields; when the CIGAR was resolved from CG the comparison here ignores the CG field
-/// (that difference is checked, and reported, by check_lazy_data_cg)
-fn check_lazy_data(lz: &bam::Record, eg: &RecordBuf, resolved: bool) -> V {
-    let mut ld = lazy_data(lz)?;
+/// The recorded class `lazy-data-retains-cg-after-resolve`, decided from the record itself: the
+/// eager CIGAR has > 65535 operations and the lazy data view is exactly the eager data followed by
+/// one field CG:B,I holding that CIGAR.
+fn is_retained_cg_class(ld: &[([u8; 2], Val)], ed: &[([u8; 2], Val)], eg: &RecordBuf) -> bool {
+    let ops = eg.cigar().as_ref();
+    if ops.len() <= 65535 || ld.len() != ed.len() + 1 || ld[..ed.len()] != *ed {
+        return false;
+    }
+    let want: Vec<i64> = ops.iter().map(|op| ((op.len() as i64) << 4) | code_of(op.kind()) as i64).collect();
+    matches!(&ld[ed.len()], (t, Val::Arr('I', xs)) if *t == CG && *xs == want)
+}
+
+/// data fields: iter() in order and get() of every tag
+fn check_lazy_data(lz: &bam::Record, eg: &RecordBuf, placeholder_outside_quantifier: bool) -> V {
+    let ld = lazy_data(lz)?;
     let ed: Vec<([u8; 2], Val)> = from_record_buf(eg, 0).data;
-    if resolved {
-        ld.retain(|(t, _)| *t != CG);
-    }
-    if ld != ed {
-        return bad("lazy-data", format!("{} vs {} fields", ld.len(), ed.len()));
-    }
     for (t, v) in &ed {
         match lz.data().get(t) {
             Some(Ok(lv)) => match Value::try_from(lv) {
@@ -779,40 +786,84 @@ fn check_lazy_data(lz: &bam::Record, eg: &RecordBuf, resolved: bool) -> V {
             _ => return bad("lazy-data-get", format!("{:?} missing", t)),
         }
     }
-    Ok(())
-}
-
-fn check_lazy_data_cg(lz: &bam::Record, eg: &RecordBuf) -> V {
-    let Ok(ld) = lazy_data(lz) else { return Ok(()) };
-    let has_l = ld.iter().any(|(t, _)| *t == CG);
-    let has_e = eg.data().get(&Tag::CIGAR).is_some();
-    if has_l && !has_e {
+    if ld == ed {
+        return Ok(());
+    }
+    if is_retained_cg_class(&ld, &ed, eg) {
         return bad(
             "lazy-data-retains-cg-after-resolve",
-            format!("lazy data lists {} fields incl. CG, eager {}", ld.len(), eg.data().len()),
+            format!("{} CIGAR ops; lazy data = eager data ({} fields) + CG:B,I", eg.cigar().as_ref().len(), ed.len()),
         );
     }
-    if has_l != has_e {
-        return bad("lazy-data-cg", "eager keeps CG, lazy does not");
+    if placeholder_outside_quantifier {
+        let mut stripped = ld.clone();
+        stripped.retain(|(t, _)| *t != CG);
+        if stripped == ed {
+            return Ok(());
+        }
     }
-    Ok(())
+    bad("lazy-data", format!("{} vs {} fields", ld.len(), ed.len()))
 }
 
-/// whole-record conversion through the Record trait
-fn check_lazy_convert(header: &sam::Header, lz: &bam::Record, eg: &RecordBuf, resolved: bool) -> V {
+/// whole-record conversion through the Record trait: every field as the eager decode, the data as
+/// the lazy data view
+fn check_lazy_convert(header: &sam::Header, lz: &bam::Record, eg: &RecordBuf) -> V {
     match RecordBuf::try_from_alignment_record(header, lz) {
         Ok(conv) => {
             let mut c = from_record_buf(&conv, 0);
-            if resolved {
-                c.data.retain(|(t, _)| *t != CG);
+            let mut e = from_record_buf(eg, 0);
+            let cd = std::mem::take(&mut c.data);
+            e.data.clear();
+            if c != e {
+                return bad("lazy-convert", format!("RecordBuf::try_from_alignment_record differs from eager decode in {}", first_diff(&c, &e)));
             }
-            if c != from_record_buf(eg, 0) {
-                return bad("lazy-convert", "RecordBuf::try_from_alignment_record differs from eager decode");
+            if let Ok(ld) = lazy_data(lz) {
+                if cd != ld {
+                    return bad("lazy-convert-data", "converted data differs from the lazy data view");
+                }
             }
         }
         Err(e) => return bad("lazy-convert", format!("Err {:?}", e.kind())),
     }
     Ok(())
+}
+
+/// The recorded class `rewrite-lazy-duplicates-cg`, decided from the bytes: the record has
+/// `n_ops` > 65535 operations, and the re-written body is the original body followed by a second
+/// copy of its trailing CG:B,I field (nothing else changed).
+fn is_duplicated_cg_class(block: &[u8], b2: &[u8], n_ops: usize) -> bool {
+    if n_ops <= 65535 || block.len() < 4 || b2.len() < 4 {
+        return false;
+    }
+    let (body, body2) = (&block[4..], &b2[4..]);
+    let flen = 8 + 4 * n_ops;
+    if body.len() < flen || body2.len() != body.len() + flen {
+        return false;
+    }
+    let field = &body[body.len() - flen..];
+    field[..4] == *b"CGBI"
+        && field[4..8] == (n_ops as u32).to_le_bytes()
+        && body2[..body.len()] == *body
+        && body2[body.len()..] == *field
+        && b2[..4] == (body2.len() as u32).to_le_bytes()
+}
+
+/// write the lazily read record again: the bytes must be the same
+fn check_rewrite(header: &sam::Header, lz: &bam::Record, block: &[u8], n_ops: usize) -> V {
+    let size_class = if n_ops > 65535 { "cigar>65535" } else { "plain" };
+    match write_raw(header, lz) {
+        Ok(b2) if b2 == block => Ok(()),
+        Ok(b2) => {
+            let readable = read_raw_eager(header, &b2).map(|_| ()).map_err(|e| e.kind());
+            let tag = if is_duplicated_cg_class(block, &b2, n_ops) {
+                "rewrite-lazy-duplicates-cg".to_string()
+            } else {
+                format!("rewrite-lazy-differs-{size_class}")
+            };
+            bad(&tag, format!("{} vs {} bytes; re-read: {:?}", b2.len(), block.len(), readable))
+        }
+        Err(e) => bad(&format!("rewrite-lazy-rejected-{size_class}"), format!("Err {:?}", e.kind())),
+    }
 }
 
 /// call every lazy accessor (results ignored): none may panic on a validated buffer
@@ -958,19 +1009,9 @@ fn run_rec(c: &Case) -> Obs {
             Ok(r) => r,
             Err(e) => return vec![("lazy-read".into(), format!("Err {:?}", e.kind()))],
         };
-        fs.extend(check_lazy(&header, &lz, &eager, overflow));
-        // writing the lazy record again must give the same bytes
-        match write_raw(&header, &lz) {
-            Ok(b2) => {
-                if b2 != block {
-                    let readable = read_raw_eager(&header, &b2).map(|_| ()).map_err(|e| e.kind());
-                    // cause, from the input: the raw data (still holding CG) is copied and a second CG appended
-                    let dup_cg = overflow && b2.len() > block.len() && b2.windows(4).filter(|w| *w == b"CGBI").count() >= 2;
-                    let tag = if dup_cg { "rewrite-lazy-duplicates-cg".to_string() } else { format!("rewrite-lazy-differs-{size_class}") };
-                    fs.push((tag, format!("{} vs {} bytes; re-read: {:?}", b2.len(), block.len(), readable)));
-                }
-            }
-            Err(e) => fs.push((format!("rewrite-lazy-rejected-{size_class}"), format!("Err {:?}", e.kind()))),
+        fs.extend(check_lazy(&header, &lz, &eager, false));
+        if let Err(f) = check_rewrite(&header, &lz, &block, spec.cigar.len()) {
+            fs.push(f);
         }
         fs
     })) {
@@ -1003,7 +1044,7 @@ fn run_rec(c: &Case) -> Obs {
             if from_record_buf(&r1, spec.nref) != want {
                 return bad("bgzf-roundtrip", "eager");
             }
-            select(check_lazy(&h2, &r2, &r1, overflow).into_iter().filter(|(t, _)| !LATE_TAGS.contains(&t.as_str())).collect())?;
+            select(check_lazy(&h2, &r2, &r1, false).into_iter().filter(|(t, _)| !LATE_TAGS.contains(&t.as_str())).collect())?;
             let mut r3 = RecordBuf::default();
             if rd.read_record_buf(&h2, &mut r3).map_err(e)? != 0 {
                 return bad("bgzf-extra-record", "");
@@ -1063,13 +1104,13 @@ fn run_dec(c: &Case) -> Obs {
             let v: V = match &lazy {
                 Err(e) => bad("lazy-read", format!("Err {:?}", e.kind())),
                 Ok(lz) => match guarded(std::panic::AssertUnwindSafe(|| {
-                    // a 2-op placeholder-shaped CIGAR that was resolved from CG
-                    let resolved = {
-                        let n_ops = u16::from_le_bytes([body[12], body[13]]);
-                        n_ops == 2 && eg.cigar().as_ref().len() != 2
-                            || (n_ops == 2 && lz.data().get(&Tag::CIGAR).is_some() && eg.data().get(&Tag::CIGAR).is_none())
-                    };
-                    select(check_lazy(&header, lz, &eg, resolved))
+                    // hand-made placeholder kSmN + CG array of <= 65535 ops: outside the quantifier
+                    let n_ops = u16::from_le_bytes([body[12], body[13]]);
+                    let small_placeholder = n_ops == 2
+                        && eg.cigar().as_ref().len() <= 65535
+                        && lz.data().get(&Tag::CIGAR).is_some()
+                        && eg.data().get(&Tag::CIGAR).is_none();
+                    select(check_lazy(&header, lz, &eg, small_placeholder))
                 })) {
                     Outcome::Done(v) => v,
                     Outcome::Panicked(m) => bad("lazy-accessor-panic", m),
@@ -1179,21 +1220,10 @@ impl Spec {
 fn run_rw(c: &Case) -> Obs {
     let (_, spec) = Spec::from_case(c);
     let header = header_with(spec.nref);
-    let overflow = spec.cigar.len() > 65535;
-    let size_class = if overflow { "cigar>65535" } else { "plain" };
     let Ok(block) = write_raw(&header, &to_record_buf(&spec)) else { return Obs::ok("-", false) };
     let v = match guarded(std::panic::AssertUnwindSafe(|| -> V {
         let lz = read_raw_lazy(&block).map_err(|e| ("lazy-read".to_string(), format!("{e}")))?;
-        match write_raw(&header, &lz) {
-            Ok(b2) if b2 == block => Ok(()),
-            Ok(b2) => {
-                let readable = read_raw_eager(&header, &b2).map(|_| ()).map_err(|e| e.kind());
-                let dup_cg = overflow && b2.len() > block.len() && b2.windows(4).filter(|w| *w == b"CGBI").count() >= 2;
-                let tag = if dup_cg { "rewrite-lazy-duplicates-cg".to_string() } else { format!("rewrite-lazy-differs-{size_class}") };
-                bad(&tag, format!("{} vs {} bytes; re-read: {:?}", b2.len(), block.len(), readable))
-            }
-            Err(e) => bad(&format!("rewrite-lazy-rejected-{size_class}"), format!("Err {:?}", e.kind())),
-        }
+        check_rewrite(&header, &lz, &block, spec.cigar.len())
     })) {
         Outcome::Done(v) => v,
         Outcome::Panicked(m) => bad("rewrite-lazy-panic", m),
@@ -1208,15 +1238,37 @@ fn run_sub(c: &Case) -> Obs {
     s.seq = c.b(0);
     let block = write_raw(&header, &to_record_buf(&s)).expect("write");
     let eg = read_raw_eager(&header, &block).expect("read");
-    let v = match guarded(std::panic::AssertUnwindSafe(|| -> V {
-        let lz = read_raw_lazy(&block).map_err(|e| ("lazy-read".to_string(), format!("{e}")))?;
-        check_lazy_subseq_shape(&lz, &eg)?;
-        check_lazy_subseq_iter(&lz, &eg)
+    let mut obs = String::from("-");
+    let v = match guarded(std::panic::AssertUnwindSafe(|| -> (String, V) {
+        let lz = match read_raw_lazy(&block) {
+            Ok(l) => l,
+            Err(e) => return ("-".into(), bad("lazy-read", format!("{e}"))),
+        };
+        // observation: what both halves iterate, for every probed mid <= len
+        let ls = lz.sequence();
+        let n = ls.len();
+        let mut parts = Vec::new();
+        for mid in subseq_mids(n) {
+            if mid > n {
+                continue;
+            }
+            if let Some((a, b)) = ls.split_at_checked(mid) {
+                parts.push(format!("{}/{}", hex(&a.iter().collect::<Vec<u8>>()), hex(&b.iter().collect::<Vec<u8>>())));
+            } else {
+                parts.push("None".into());
+            }
+        }
+        let o = short_or_digest(parts.join(","));
+        let v = check_lazy_subseq_shape(&lz, &eg).and_then(|_| check_lazy_subseq_iter(&lz, &eg));
+        (o, v)
     })) {
-        Outcome::Done(v) => v,
+        Outcome::Done((o, v)) => {
+            obs = o;
+            v
+        }
         Outcome::Panicked(m) => bad("lazy-subsequence-panic", m),
     };
-    Obs::ok("-", s.seq.len() >= 2).with_verdict(v)
+    Obs::ok(obs, s.seq.len() >= 2).with_verdict(v)
 }
 
 fn run(c: &Case) -> Obs {
